@@ -856,6 +856,47 @@ def local_defs(fn, did):
     return out
 
 
+def reaching_events(fn, events, use):
+    """Of the given event nodes (assignments, calls ...), those that may be the LAST one evaluated before `use` on
+    some path from the entry (classic reaching definitions with every event killing the others).  An event whose
+    position equals the use's (the use sits inside it) is evaluated after the use.  Also returns whether the entry
+    reaches the use with no event at all."""
+    cfg = fn.cfg
+    pu = cfg.node_pos(use)
+    if pu is None:
+        return [], True
+    by_block = {}
+    for e in events:
+        p = cfg.node_pos(e)
+        if p is not None:
+            by_block.setdefault(p[0], []).append((p[1], e))
+    for b in by_block:
+        by_block[b].sort(key=lambda t: t[0])
+    same = [e for pos, e in by_block.get(pu[0], []) if pos < pu[1]]
+    if same:
+        return [same[-1]], False
+    out, seen, st, bare = [], set(), list(cfg.pred[pu[0]]), pu[0] == cfg.entry
+    while st:
+        b = st.pop()
+        if b in seen:
+            continue
+        seen.add(b)
+        if b in by_block:
+            out.append(by_block[b][-1][1])
+            continue
+        if b == cfg.entry:
+            bare = True
+        st.extend(cfg.pred[b])
+    return out, bare
+
+
+def reaching_defs(fn, did, use):
+    """(site, rhs) definitions of local `did` that may reach `use`."""
+    defs = local_defs(fn, did)
+    ev, _ = reaching_events(fn, [s for s, _ in defs], use)
+    return [(s, r) for s, r in defs if any(s is e for e in ev)]
+
+
 def locals_in(n):
     return {x['did'] for x in walk(n) if x['k'] == 'ref' and x.get('dk') in ('local', 'param')}
 
